@@ -9,9 +9,9 @@ const COLS: [(&str, &str); 32] = [
     ("Key", "key"), ("Zed", "zed"), ("Pad", "pad"), ("Bya", "bya"), ("Byb", "byb"), ("Byc", "byc"),
     ("Byd", "byd"), ("Bye", "bye"), ("Byf", "byf"), ("Arr", "arr"), ("Txt", "txt"), ("Bxd", "bxd"),
     ("Opt", "opt"), ("Zno", "zno"), ("Trk", "trk"), ("Vek", "vek"),
-    ("Xaa", "xaa"), ("Xab", "xab"), ("Xac", "xac"), ("Xad", "xad"), ("Xae", "xae"), ("Xaf", "xaf"),
-    ("Xag", "xag"), ("Xah", "xah"), ("Xai", "xai"), ("Xaj", "xaj"), ("Xak", "xak"), ("Xal", "xal"),
-    ("Xam", "xam"), ("Xan", "xan"), ("Xao", "xao"), ("Xap", "xap"),
+    ("Bxe", "bxe"), ("Xab", "xab"), ("Xac", "xac"), ("Xad", "xad"), ("Xae", "xae"), ("Xaf", "xaf"),
+    ("Xag", "xag"), ("Zee", "zee"), ("Xai", "xai"), ("Xaj", "xaj"), ("Xak", "xak"), ("Xal", "xal"),
+    ("Xam", "xam"), ("Xan", "xan"), ("Xao", "xao"), ("Trl", "trl"),
 ];
 
 const ARCHS: [(&str, &str); 32] = [
@@ -79,9 +79,9 @@ fn main() {
     writeln!(s, "pub const ARITIES: [usize; NARCH] = {:?};", specs.iter().map(|x| x.2.len()).collect::<Vec<_>>()).unwrap();
     writeln!(s, "/// position of the Key column in the declared order").unwrap();
     writeln!(s, "pub const KEYPOS: [usize; NARCH] = {:?};", specs.iter().map(|x| x.2.iter().position(|c| *c == 0).unwrap()).collect::<Vec<_>>()).unwrap();
-    writeln!(s, "/// tracked columns (Key = 0, Trk = 14) and zero-sized Drop columns (Zed = 1) per archetype").unwrap();
-    writeln!(s, "pub const TRACKED: [i64; NARCH] = {:?};", specs.iter().map(|x| x.2.iter().filter(|c| **c == 0 || **c == 14).count() as i64).collect::<Vec<_>>()).unwrap();
-    writeln!(s, "pub const ZEDS: [i64; NARCH] = {:?};", specs.iter().map(|x| x.2.iter().filter(|c| **c == 1).count() as i64).collect::<Vec<_>>()).unwrap();
+    writeln!(s, "/// tracked columns (Key = 0, Trk = 14, Trl = 31) and zero-sized Drop columns (Zed = 1, Zee = 23) per archetype").unwrap();
+    writeln!(s, "pub const TRACKED: [i64; NARCH] = {:?};", specs.iter().map(|x| x.2.iter().filter(|c| **c == 0 || **c == 14 || **c == 31).count() as i64).collect::<Vec<_>>()).unwrap();
+    writeln!(s, "pub const ZEDS: [i64; NARCH] = {:?};", specs.iter().map(|x| x.2.iter().filter(|c| **c == 1 || **c == 23).count() as i64).collect::<Vec<_>>()).unwrap();
     writeln!(s, "/// for each archetype: global column id (index into the column list) of every declared position").unwrap();
     s.push_str("pub const COLMAP: [&[u8]; NARCH] = [");
     for x in &specs {
